@@ -16,27 +16,36 @@ let show_res = function
   | RL l -> "L:" ^ String.concat "," (List.map hex l)
   | RC ok -> "C:" ^ string_of_bool ok
 
+(* observation of one operation: the operation, the bucket's answer rendered
+   like show_res, the content of a successful read, and for listings the
+   kind of context used and whether the iterator surfaced an error *)
+type obs = { op : op; impl : string; impl_rres : rres option; lctx : string; lerr : bool; lnames : n list list }
+let mk op impl = { op; impl; impl_rres = None; lctx = "live"; lerr = false; lnames = [] }
 let parse_op c =
   match next c with
   | "w" ->
     let n = next_bytes c in
     let ct = next_bytes c in
     let ok = next_bool c in
-    (OWrite (n, ct), "W:" ^ string_of_bool ok, None)
+    mk (OWrite (n, ct)) ("W:" ^ string_of_bool ok)
   | "r" ->
     let n = next_bytes c in
     let tag = next c in
     let data = next_bytes c in
-    (ORead n, "R:" ^ (if tag = "ok" then "ok:" ^ hex data else tag), (if tag = "ok" then Some (ROk data) else None))
+    { (mk (ORead n) ("R:" ^ (if tag = "ok" then "ok:" ^ hex data else tag))) with
+      impl_rres = (if tag = "ok" then Some (ROk data) else None) }
   | "l" ->
     let p = next_bytes c in
+    let lctx = next c in
+    let lerr = next_bool c in
     let names = next_list c next_bytes in
-    (OList p, "L:" ^ String.concat "," (List.map hex names), None)
+    { (mk (OList p) ("L:" ^ String.concat "," (List.map hex names) ^ (if lerr then "!error" else ""))) with
+      lctx; lerr; lnames = names }
   | "c" ->
     let d = next_bytes c in
     let sr = next_bytes c in
     let ok = next_bool c in
-    (OCopy (d, sr), "C:" ^ string_of_bool ok, None)
+    mk (OCopy (d, sr)) ("C:" ^ string_of_bool ok)
   | t -> failwith ("bad op tag " ^ t)
 
 let show_op = function
@@ -48,56 +57,119 @@ let show_op = function
 let show_tree l =
   String.concat ";" (List.map (fun (p, k, ct) -> Printf.sprintf "%s:%s:%s" (hex p) k (hex ct)) l)
 
+(* per bucket: the strict specification map and the name last copied onto itself *)
+type bstate = { mutable sp : (n list list * n list) list; mutable self_copied : n list option }
+let new_bstate () = { sp = []; self_copied = None }
+
+(* PROP: the property's specification (strict map) on the REAL answer of one operation *)
+let judge label st (o : obs) =
+  let op = o.op in
+  let (rs, sp') = step_spec true st.sp op in
+  let sp' = ref sp' in
+  (match op with
+   | OList _ ->
+     let complete = (match rs with RL l -> l | _ -> []) in
+     if not (listing_ok complete (o.lerr, o.lnames)) then begin
+       let cls =
+         if deviating st.sp op then "list-below-non-utf8-dir"
+         else if o.lctx <> "live" then "list-truncated-without-error"
+         else "list-exact" in
+       prop cls (Printf.sprintf "%s %s with a %s context: no error surfaced, the complete listing is %s, bucket answered %s"
+                   label (show_op op) o.lctx (show_res rs) o.impl)
+     end
+   | _ ->
+     if show_res rs <> o.impl then begin
+       let cls = match op with
+         | OWrite _ -> "write-outcome"
+         | ORead n ->
+           (match rs with
+            | RR (ROk _) ->
+              if st.self_copied = Some n then begin
+                (* judge later operations against what the bucket really holds now *)
+                (match o.impl_rres with Some (ROk ct) -> sp' := sput (components n) ct !sp' | _ -> ());
+                "copy-onto-itself"
+              end else "write-read"
+            | _ -> if collides (components n) st.sp then "read-absent-colliding" else "read-absent")
+         | OList _ -> "list-exact"
+         | OCopy (d, sr) -> if d = sr then "copy-onto-itself" else "copy-outcome" in
+       prop cls (Printf.sprintf "%s %s: property expects %s, bucket answered %s" label (show_op op) (show_res rs) o.impl)
+     end);
+  st.self_copied <- (match op with OCopy (d, sr) when d = sr -> Some d | _ -> None);
+  st.sp <- !sp'
+
+let parse_tree c =
+  next_list c (fun c -> let p = next_bytes c in let k = next c in let ct = next_bytes c in (p, k, ct))
+let model_tree m =
+  List.filter_map (fun (p, e) ->
+      if p = [] then None else
+        Some (match e with F ct -> (join_path p, "f", ct) | D -> (join_path p, "d", []))) m
+let check_tree label m st tree =
+  (* the directory tree on disk vs the model tree *)
+  let mtree = model_tree m in
+  if mtree <> tree then diff (label ^ "tree") ~model:(show_tree mtree) ~impl:(show_tree tree);
+  (* the regular files on disk are exactly the map of the specification *)
+  let files = List.filter_map (fun (p, k, ct) -> if k = "f" then Some (p, ct) else None) tree in
+  let smap = List.map (fun (p, ct) -> (join_path p, ct)) st.sp in
+  if files <> smap then
+    prop "stored-set" (Printf.sprintf "%sfiles on disk %s, specification map %s" label
+                         (show_tree (List.map (fun (p, ct) -> (p, "f", ct)) files))
+                         (show_tree (List.map (fun (p, ct) -> (p, "f", ct)) smap)))
+
+(* the model's answer to one observation, rendered like the implementation's *)
+let model_answer m (o : obs) =
+  match o.op with
+  | OList p ->
+    let (err, names) = list_ctx (o.lctx <> "live") m p in
+    ("L:" ^ String.concat "," (List.map hex names) ^ (if err then "!error" else ""), m)
+  | op -> let (rm, m') = step_fs m op in (show_res rm, m')
+
 let handle kind c =
   match kind with
   | "ops" ->
     let ops = next_list c parse_op in
     let confined = next_bool c in
-    let tree = next_list c (fun c ->
-        let p = next_bytes c in let k = next c in let ct = next_bytes c in (p, k, ct)) in
+    let tree = parse_tree c in
     let fs = ref fs_init in
-    let sp = ref [] in
+    let st = new_bstate () in
     let i = ref 0 in
-    let self_copied = ref None in
-    List.iter (fun (op, impl, impl_rres) ->
+    List.iter (fun o ->
         incr i;
-        let (rm, fs') = step_fs !fs op in
-        if show_res rm <> impl then
-          diff (Printf.sprintf "op%d-%s" !i (show_op op)) ~model:(show_res rm) ~impl;
+        let (ma, fs') = model_answer !fs o in
+        if ma <> o.impl then diff (Printf.sprintf "op%d-%s" !i (show_op o.op)) ~model:ma ~impl:o.impl;
         fs := fs';
-        let (rs, sp') = step_spec true !sp op in
-        let sp' = ref sp' in
-        if show_res rs <> impl then begin
-          let cls = match op with
-            | OWrite _ -> "write-outcome"
-            | ORead n ->
-              (match rs with
-               | RR (ROk _) ->
-                 if !self_copied = Some n then begin
-                   (* judge later operations against what the bucket really holds now *)
-                   (match impl_rres with Some (ROk ct) -> sp' := sput (components n) ct !sp' | _ -> ());
-                   "copy-onto-itself"
-                 end else "write-read"
-               | _ -> if collides (components n) !sp then "read-absent-colliding" else "read-absent")
-            | OList _ -> if deviating !sp op then "list-below-non-utf8-dir" else "list-exact"
-            | OCopy (d, sr) -> if d = sr then "copy-onto-itself" else "copy-outcome" in
-          prop cls (Printf.sprintf "op %d %s: property expects %s, bucket answered %s" !i (show_op op) (show_res rs) impl)
-        end;
-        self_copied := (match op with OCopy (d, sr) when d = sr -> Some d | _ -> None);
-        sp := !sp') ops;
+        judge (Printf.sprintf "op %d" !i) st o) ops;
     if not confined then prop "confined" "a path outside the bucket directory was created or changed";
-    (* the directory tree on disk vs the model tree *)
-    let mtree = List.filter_map (fun (p, e) ->
-        if p = [] then None else
-          Some (match e with F ct -> (join_path p, "f", ct) | D -> (join_path p, "d", []))) !fs in
-    if mtree <> tree then diff "tree" ~model:(show_tree mtree) ~impl:(show_tree tree);
-    (* the regular files on disk are exactly the map of the specification *)
-    let files = List.filter_map (fun (p, k, ct) -> if k = "f" then Some (p, ct) else None) tree in
-    let smap = List.map (fun (p, ct) -> (join_path p, ct)) !sp in
-    if files <> smap then
-      prop "stored-set" (Printf.sprintf "files on disk %s, specification map %s"
-                           (show_tree (List.map (fun (p, ct) -> (p, "f", ct)) files))
-                           (show_tree (List.map (fun (p, ct) -> (p, "f", ct)) smap)))
+    check_tree "" !fs st tree
+  | "multi" ->
+    (* two storage roots x three bucket names in one process; a bucket is (root, name) *)
+    let ops = next_list c (fun c -> let r = next_n c in let j = next_n c in let o = parse_op c in ((r, j), o)) in
+    let confined = next_bool c in
+    let w = ref world_init in
+    let states = Hashtbl.create 8 in
+    let state_of b = match Hashtbl.find_opt states b with
+      | Some st -> st
+      | None -> let st = new_bstate () in Hashtbl.add states b st; st in
+    let i = ref 0 in
+    List.iter (fun (b, o) ->
+        incr i;
+        let label = Printf.sprintf "op %d on bucket (root %d, name %d)" !i (int_of_n (fst b)) (int_of_n (snd b)) in
+        (* model: the world of independent buckets *)
+        (match o.op with
+         | OList _ ->
+           let (ma, _) = model_answer (!w b) o in
+           if ma <> o.impl then diff (Printf.sprintf "op%d-%s" !i (show_op o.op)) ~model:ma ~impl:o.impl
+         | op ->
+           let ((_, rm), w') = step_world !w (b, op) in
+           if show_res rm <> o.impl then diff (Printf.sprintf "op%d-%s" !i (show_op op)) ~model:(show_res rm) ~impl:o.impl;
+           w := w');
+        (* property: every bucket is its own map *)
+        judge label (state_of b) o) ops;
+    if not confined then prop "confined" "a path outside the bucket directories was created or changed";
+    List.iter (fun r ->
+        List.iter (fun j ->
+            let b = (n_of_int r, n_of_int j) in
+            let tree = parse_tree c in
+            check_tree (Printf.sprintf "bucket (root %d, name %d): " r j) (!w b) (state_of b) tree) [0; 1; 2]) [0; 1]
   | "resolve" ->
     let name = next_bytes c in
     let tag = next c in
